@@ -929,3 +929,133 @@ func checkRandConfined(c *core.Ctx, rule string) {
 		c.Info(rule, "batched#rand-fields", "-", "no *rand.Rand struct field is used in the batching pool")
 	}
 }
+
+// checkNoNilIntoPool (R14.13): what is put into a shared object pool is an object. A release whose argument is the
+// first result of a call that can return (nil, err) must sit on the err == nil side (a deferred release evaluates its
+// argument when it is registered): otherwise a typed nil pointer goes into the pool, and the next Get of *any*
+// connection hands it out - that connection panics on the first field access (or, on a goroutine of its own, takes
+// the whole process down).
+func checkNoNilIntoPool(c *core.Ctx, rule string, wrappers map[*ssa.Function]int) {
+	n := 0
+	for _, fn := range c.P.RepoFuncs("") {
+		counts := map[string]int{}
+		ssax.Instrs(fn, func(ins ssa.Instruction) {
+			var v ssa.Value
+			switch x := ins.(type) {
+			case *ssa.Call:
+				v = releaseArg(x, wrappers)
+			case *ssa.Defer:
+				v = deferredReleaseArg(x, wrappers)
+			}
+			if v == nil {
+				return
+			}
+			ext, ok := v.(*ssa.Extract)
+			if !ok {
+				return
+			}
+			src, ok := ext.Tuple.(*ssa.Call)
+			if !ok {
+				return
+			}
+			e := errResult(src)
+			callee := src.Call.StaticCallee()
+			if e == nil || callee == nil || len(callee.Blocks) == 0 || !mayReturnNilWithError(callee, ext.Index) {
+				return
+			}
+			n++
+			key := ordinalKey(counts, core.FuncName(fn)+"#released-object-exists:"+short(ssax.CalleeName(&src.Call)))
+			bad := ""
+			keep := func(x ssa.Value) bool { return ssax.IsErrorValue(x) || x == v }
+			ex := &ssax.Explorer{Fn: fn}
+			ex.Enter = func(b, pred *ssa.BasicBlock, st ssax.PState) {
+				st.(*holdState).f.EnterBlock(b, pred)
+				st.(*holdState).f.Retain(keep)
+			}
+			ex.Instr = func(i ssa.Instruction, st ssax.PState) bool {
+				hs := st.(*holdState)
+				fs := hs.f
+				if i == ins {
+					ok := fs.Eval(e).Nil == ssax.Yes || fs.Eval(v).Nil == ssax.No
+					// the error may live in a local cell (named result, variable captured by a closure)
+					for cell := range hs.holds {
+						if fs[cell].Nil == ssax.Yes {
+							ok = true
+						}
+					}
+					if !ok {
+						bad = fmt.Sprintf("the release at %s is reached while %s may have failed: its first result is nil then", c.P.Pos(ins.Pos()), short(ssax.CalleeName(&src.Call)))
+					}
+				}
+				if st, isStore := i.(*ssa.Store); isStore {
+					if cell, isCell := st.Addr.(*ssa.Alloc); isCell {
+						if st.Val == e {
+							hs.holds[cell] = true
+						} else {
+							delete(hs.holds, cell)
+						}
+					}
+				}
+				fs.Step(i)
+				return true
+			}
+			ex.Branch = func(ifi *ssa.If, truth bool, st ssax.PState) bool {
+				fs := st.(*holdState).f
+				ok := fs.Assume(ifi.Cond, truth)
+				fs.Retain(keep)
+				return ok
+			}
+			ex.Run(&holdState{ssax.Facts{}, map[ssa.Value]bool{}})
+			pos := c.P.Pos(ins.Pos())
+			switch {
+			case ex.Exceeded:
+				c.Undecided(rule, key, pos, "state space exceeded")
+			case bad != "":
+				c.Violate(rule, key, pos, bad+": a nil pointer goes into the shared pool and is handed to the next user, which panics on its first field access")
+			default:
+				c.OK(rule, key, pos, "released only where the call that produced it succeeded")
+			}
+		})
+	}
+	if n == 0 {
+		c.Undecided(rule, "pools#released-object-exists", "-", "no release of a fallible call's result found")
+	}
+}
+
+// mayReturnNilWithError reports whether fn has a return whose idx-th result is the nil constant.
+func mayReturnNilWithError(fn *ssa.Function, idx int) bool {
+	for _, r := range ssax.Returns(fn) {
+		if idx >= len(r.Results) {
+			continue
+		}
+		for _, def := range append([]ssa.Value{r.Results[idx]}, ssax.Defs(r.Results[idx])...) {
+			if k, ok := def.(*ssa.Const); ok && k.Value == nil {
+				return true
+			}
+		}
+	}
+	return false
+}
+
+// holdState: facts plus the local cells that currently hold the error value under examination.
+type holdState struct {
+	f     ssax.Facts
+	holds map[ssa.Value]bool
+}
+
+func (s *holdState) Key() string {
+	var ks []string
+	for c := range s.holds {
+		ks = append(ks, c.Name())
+	}
+	sort.Strings(ks)
+	return s.f.Key() + "|" + strings.Join(ks, ",")
+}
+
+func (s *holdState) Copy() ssax.PState {
+	h := map[ssa.Value]bool{}
+	for k := range s.holds {
+		h[k] = true
+	}
+	return &holdState{s.f.Clone(), h}
+}
